@@ -27,7 +27,10 @@ _RNG_FUNCS = [
     "ranf", "sample", "bytes", "random_integers", "negative_binomial", "laplace",
     "lognormal", "triangular", "multivariate_normal", "dirichlet",
 ]
-_ENTROPY_FUNCS = ["default_rng", "RandomState", "SeedSequence"]
+# Only the function is replaced: RandomState / SeedSequence are classes that numpy itself uses in
+# isinstance checks.  Entropy taken through them is still caught, as nondeterminism, by the
+# determinism legs and by C14's in-run reproducibility check.
+_ENTROPY_FUNCS = ["default_rng"]
 
 
 def _size_tuple(size):
